@@ -99,6 +99,10 @@ instance : Cost Float where
   sub := fun a b => a - b
   le := fun a b => a ≤ b
 
+/-- Is this `f32` bit pattern a NaN? -/
+def f32IsNaN (bits : UInt32) : Bool :=
+  bits.toNat % 2 ^ 31 > 0x7F800000
+
 /-- The encoder part of `Kitoken::new`. -/
 def mkEncoder (d : Definition) : Except InitError (EncoderModel Score) :=
   let unknown := unknownOf d.specials
@@ -113,7 +117,8 @@ def mkEncoder (d : Definition) : Except InitError (EncoderModel Score) :=
                   eow := firstTemplate d.config.templates .wordEnd, chars := chars,
                   fallback := d.config.fallback, maxTok := maxLen keys, minTok := minLen keys })
   | .unigram vocab scores =>
-    if vocab.length != scores.length then .error .invalidScores
+    -- a NaN score is rejected (F27 repair: the export sorts by score with `partial_cmp(..).unwrap()`)
+    if vocab.length != scores.length || scores.any f32IsNaN then .error .invalidScores
     else
       let vm : HashMap Bytes (Id × Score) :=
         (vocab.zip scores).foldl (fun m ((i, b), s) => m.insert b (i, ⟨false, f32ToFloat s⟩)) {}
